@@ -298,12 +298,15 @@ PREFIX_NAMES = {'plain': ('A', 'BC', 'HL', 'DE'), 'delim': ('B, D', 'IX+1', 'H, 
 def prefix_sections(k):
     """Every sequence of 1..k prefixes over PREFIX_ALPHABET; then every letter as the first letter of a prefix (alone
     and followed by more letters), each followed by a register without a prefix."""
+    seen = set()
     for n in range(1, k + 1):
         for seq in itertools.product(PREFIX_ALPHABET, repeat=n):
+            seen.add(seq)
             yield seq
     for ch in PREFIX_LETTERS:
-        yield (ch, '')
-        yield (ch + 'xy', '')
+        for seq in ((ch, ''), (ch + 'xy', '')):
+            if seq not in seen:
+                yield seq
 
 
 def entry_prefixes(seq, form, salt):
